@@ -43,6 +43,8 @@ type Contract struct {
 	Results  []string
 	ResultSorts []string
 	Lines    int
+	Devirt   map[string][]types.Type
+	Inlines  []string
 }
 
 type SpecFunc struct {
@@ -102,6 +104,7 @@ type Engine struct {
 	reassigned map[*ssa.Global]bool
 	macros map[string]*Macro
 	closedIfaces map[string]bool
+	partialDevirt map[string][]types.Type
 	heapKinds map[string]SortKind
 	globalInv map[string]*Clause
 	globalInvPkg map[string]*ssa.Package
@@ -173,6 +176,7 @@ func loadEngine(repo string, patterns []string) (*Engine, error) {
 	e.errConst("io.EOF")
 	e.macros = map[string]*Macro{}
 	e.closedIfaces = map[string]bool{}
+	e.partialDevirt = map[string][]types.Type{}
 	e.heapKinds = map[string]SortKind{}
 	e.globalInv = map[string]*Clause{}
 	e.globalInvPkg = map[string]*ssa.Package{}
@@ -313,6 +317,9 @@ func (e *Engine) loadSpecFile(path string, pkg *ssa.Package) error {
 			}
 			cur.Lines++
 		case "loop":
+			if cur == nil {
+				return fmt.Errorf("%s: loop clause outside func: %q", path, rest)
+			}
 			f := strings.SplitN(rest, " ", 3)
 			if len(f) < 3 {
 				return fmt.Errorf("%s: bad loop clause %q", path, rest)
@@ -339,6 +346,17 @@ func (e *Engine) loadSpecFile(path string, pkg *ssa.Package) error {
 			cur.Lines++
 		case "inline":
 			cur.Inline = true
+		case "inlines": // inlines f, g : while verifying this function, calls of f and g are executed on their bodies
+			for _, n := range strings.Split(rest, ",") {
+				n = strings.TrimSpace(n)
+				if n == "" {
+					continue
+				}
+				if pkgName != "" && !strings.Contains(n, ":") {
+					n = pkgName + "." + n
+				}
+				cur.Inlines = append(cur.Inlines, strings.TrimPrefix(n, ":"))
+			}
 		case "trusted":
 			cur.Trusted = true
 		case "opaque":
@@ -364,6 +382,37 @@ func (e *Engine) loadSpecFile(path string, pkg *ssa.Package) error {
 			}
 			e.globalInv[strings.TrimSpace(rest[:i])] = &Clause{Src: rest, X: x}
 			e.globalInvPkg[strings.TrimSpace(rest[:i])] = pkg
+		case "devirt": // devirt iface:io.Writer.Write *smf.wrWrapper : execute these implementations as themselves
+			f := strings.Fields(rest)
+			if len(f) < 2 {
+				return fmt.Errorf("%s: bad devirt %q", path, rest)
+			}
+			for _, tn := range f[1:] {
+				ptr := strings.HasPrefix(tn, "*")
+				n := strings.TrimPrefix(tn, "*")
+				i := strings.Index(n, ".")
+				p := e.pkgByName[n[:i]]
+				if p == nil {
+					continue // package not loaded in this run
+				}
+				obj := p.Pkg.Scope().Lookup(n[i+1:])
+				if obj == nil {
+					return fmt.Errorf("%s: devirt: unknown type %s", path, tn)
+				}
+				var T types.Type = obj.Type()
+				if ptr {
+					T = types.NewPointer(T)
+				}
+				if cur != nil {
+					// inside a function contract: applies to the verification of that function only
+					if cur.Devirt == nil {
+						cur.Devirt = map[string][]types.Type{}
+					}
+					cur.Devirt[f[0]] = append(cur.Devirt[f[0]], T)
+				} else {
+					e.partialDevirt[f[0]] = append(e.partialDevirt[f[0]], T)
+				}
+			}
 		case "closed": // closed pkg.Iface : all implementations of this interface are inside the repository
 			f := strings.Fields(rest)
 			for _, n := range f {
